@@ -7,7 +7,7 @@ Local Open Scope string_scope.
 (** the methods of [dd.bdd.BDD] the model wraps with [try_to_reorder];
     [reduction] is a Python-only utility that is not modelled *)
 Definition model_decorated : list string :=
-  ["_quantify_vars"; "add_expr"; "cofactor"; "compose"; "cube"; "ite"; "reduction"; "rename"; "var"].
+  ["_cofactor_vars"; "_quantify_vars"; "add_expr"; "compose"; "cube"; "ite"; "reduction"; "rename"; "var"].
 
 Lemma decorated_table : py_decorated = model_decorated.
 Proof. reflexivity. Qed.
@@ -17,12 +17,25 @@ Lemma thresholds :
   = (REORDER_STARTS, REORDER_FACTOR, GROWTH_FACTOR).
 Proof. reflexivity. Qed.
 
-(** each of them IS a decorated computation in the model *)
+(** each of them IS a decorated computation in the model; the public
+    [cofactor] and [quantify] are NOT decorated: they turn their keys into
+    variable names (levels are read against the order at the time of the call)
+    and call the decorated workers [cofactor_names] / [quantify_names] *)
 Lemma model_is_decorated :
   (∀ g u v, ∃ body, ite g u v = try_to_reorder body) ∧
   (∀ n, ∃ body, var n = try_to_reorder body) ∧
-  (∀ u b vs, ∃ body, cofactor u b vs = try_to_reorder body) ∧
-  (∀ u b q fa, ∃ body, quantify u b q fa = try_to_reorder body) ∧
+  (∀ u vs, ∃ body, cofactor_names u vs = try_to_reorder body) ∧
+  (∀ u q fa, ∃ body, quantify_names u q fa = try_to_reorder body) ∧
+  (∀ u vs, cofactor u true vs = cofactor_names u vs) ∧
+  (∀ u vs, cofactor u false vs =
+     (lv <- map_to_level_dict false vs ;;
+      nv <- mapM (fun '(l, a) => v <- var_at_level l ;; ret (v, a)) (map_to_list lv) ;;
+      cofactor_names u nv)) ∧
+  (∀ u q fa, quantify u true q fa = quantify_names u q fa) ∧
+  (∀ u q fa, quantify u false q fa =
+     (ls <- map_to_level_set false q ;;
+      names <- mapM var_at_level (elements ls) ;;
+      quantify_names u names fa)) ∧
   (∀ f sub, ∃ body, compose f sub = try_to_reorder body) ∧
   (∀ u d, ∃ body, rename u d = try_to_reorder body) ∧
   (∀ d, ∃ body, cube d = try_to_reorder body) ∧
